@@ -153,4 +153,15 @@ theorem step_expr_flat (a : Bool) (b : Nat) (acts : List Member) (e0 : Nat) (def
       simp only [Except.map, bind, Except.bind]
       exact ih (e0 + 1) _ t (fun m' hm' => hflat m' (by simp [hm']))
 
+/-- Non-vacuity / reading aid: `a |> f => g ..h` is `(a).map(f).and_then(g).h` — one parenthesised initial value and three
+    postfix applications, no definitions hoisted (token lists compared with the model's `==`). -/
+example :
+    (match genBranchStep false 0 (.r 0)
+        [⟨.initial, false, .none, [⟨.expr, [.ident "a"]⟩]⟩, ⟨.map, false, .none, [⟨.expr, [.ident "f"]⟩]⟩,
+         ⟨.andThen, false, .none, [⟨.expr, [.ident "g"]⟩]⟩, ⟨.dot, false, .none, [⟨.expr, [.ident "h"]⟩]⟩] with
+      | .ok (some (ds, t)) => ds.isEmpty && t == ([paren [.ident "a"]] ++ methodCall "map" [[.ident "f"]] ++
+          methodCall "and_then" [[.ident "g"]] ++ [.punct '.' false, .ident "h"])
+      | _ => false) = true := by
+  decide +kernel
+
 end JoinModel.Props.C01
